@@ -95,6 +95,21 @@ const maxReplayLen = 1 << 16
 func replayOblig(o *Oblig, prop string, workdir string) *ReplayRecord {
 	rec := &ReplayRecord{Property: prop, Obligation: o.Name, Kind: o.Kind, Function: o.Fn, Clause: o.Clause, Pos: o.Pos,
 		Status: o.Status, Solver: o.Solver, SolverOutput: truncate(o.Output, 4000), Verdict: "no-failing-input-found", SmtFile: o.SmtFile}
+	if o.gen == nil {
+		rec.Reason = "frame obligation decided syntactically on the SSA (no solver model): " + o.Output
+		// a per-function template may demonstrate the write on the real code (e.g. under the race detector)
+		if tmpl, err := os.ReadFile(filepath.Join(verifRoot, "replay", sanitize(o.Fn)+".go.tmpl")); err == nil && o.PkgPath != "" {
+			src := strings.ReplaceAll(string(tmpl), "{{clause}}", o.Name)
+			rec.GoTest = src
+			out, _ := runOverlayTest(o.PkgPath, src, workdir, sanitize(o.Name))
+			rec.ReplayOutput = truncate(out, 6000)
+			if strings.Contains(out, "REPLAY-FAIL") || strings.Contains(out, "WARNING: DATA RACE") {
+				rec.Verdict = "fails-on-real-code"
+				rec.Reason += "; the template replay shows it on the real code"
+			}
+		}
+		return rec
+	}
 	if o.Status != "failed" {
 		rec.Reason = "the solver gave no model (" + o.Status + ")"
 		return rec
@@ -562,7 +577,12 @@ func runOverlayTest(pkgPath, src, workdir, tag string) (string, error) {
 	os.WriteFile(ovFile, ovb, 0o644)
 	ctx, cancel := context.WithTimeout(context.Background(), 240*time.Second)
 	defer cancel()
-	cmd := exec.CommandContext(ctx, "go", "test", "-overlay", ovFile, "-vet=off", "-count=1", "-timeout", "60s", "-run", "^TestVerifReplay$", "-v", ".")
+	argv := []string{"test", "-overlay", ovFile, "-vet=off", "-count=1", "-timeout", "60s", "-run", "^TestVerifReplay$", "-v"}
+	if strings.Contains(src, "//verif:race") {
+		argv = append(argv, "-race")
+	}
+	argv = append(argv, ".")
+	cmd := exec.CommandContext(ctx, "go", argv...)
 	cmd.Dir = dir
 	cmd.Env = append(os.Environ(), "GOFLAGS=-mod=mod", "GOPROXY=off", "GOSUMDB=off", "GOTOOLCHAIN=local")
 	out, err := cmd.CombinedOutput()
